@@ -66,6 +66,30 @@ CHECKS = {
     'C17': dict(cat='proof', tech='pairwise equality of measured closed forms across overlay families',
                 text='For each overlay family (common header, ACF common header, stream header, AAF~PCM, full~brief variants) and every '
                      'pair of views the measured read result and write effect of the shared field must be identical.', ref='4.17'),
+
+    'C15': dict(cat='proof', tech='pointer-provenance/alignment dataflow over clang -O0 IR of every library unit',
+                text='Every load, store and mem-intrinsic operand of the library (about 2800 sites) is checked: the alignment the access '
+                     'carries must not exceed what the declared type of the pointer\'s origin guarantees (uint8_t* and header types: 1). '
+                     'With no over-aligned access into wire memory, results cannot depend on placement or optimisation level. The 64 typed '
+                     'accesses of the VSS codec are genuine and listed as known findings, site by site; any new site is a violation.',
+                ref='4.15', engine='rules',
+                note='trusted: clang-14 -O0 IR generation (access alignments are those the front end derives from the C types), irparse.py, '
+                     'rules.py; the rule is structural: it proves absence of over-aligned accesses, from which placement independence follows'),
+    'C16': dict(cat='proof', tech='IR rules: constant globals, callee whitelist, write-provenance dataflow, empty reader write sets',
+                text='Over the IR of exactly the units CMakeLists.txt links into libopen1722 and libopen1722custom: every static-storage '
+                     'object is constant, every external callee is memcpy/memset/memmove, every write targets memory traced to an argument '
+                     'or a local, every reader has an empty write set; hence calls on distinct PDUs (or readers on a shared PDU) cannot race. '
+                     'A positive-control fixture must be flagged on every run.', ref='4.16', engine='rules',
+                note='trusted: clang-14 IR generation, irparse.py, rules.py, bpa.py for reader write sets; the argument from "no shared '
+                     'mutable state" to "race-free in every schedule" is the standard one and is stated in DESIGN.md 4.16'),
+    'C20': dict(cat='proof', tech='compile-time witnesses: all ordered header pairs x {C99, C++17} with asserted facts',
+                text='Each of the 26 public headers compiles alone in C99 and C++17 and yields its facts (2044 enumerator/macro values, '
+                     'sizes, payload offsets, folded by the compiler); all 650 ordered pairs in both languages must compile with '
+                     '-Werror=macro-redefined and every fact of both headers asserted; all-header units in several orders may only fail '
+                     'with pairwise conflicts. The Aaf.h/Pcm.h name clash is genuine and listed as known findings.', ref='4.20',
+                engine='witness',
+                note='trusted: clang-14 front end in -std=c99 and -std=c++17 modes; subsets larger than two are covered by the pairwise '
+                     'argument (a name clash needs two declarations) plus the all-header units'),
 }
 
 PENDING = ['C05', 'C06', 'C07', 'C08', 'C09', 'C10', 'C12', 'C13', 'C14', 'C15', 'C16', 'C17', 'C18', 'C19', 'C20']
@@ -101,9 +125,13 @@ def main():
             'add_only': True,
         },
         'engines': [
-            {'name': 'bpa', 'path': 'verif/bpa.py', 'serves_properties': sorted(CHECKS),
+            {'name': 'bpa', 'path': 'verif/bpa.py', 'serves_properties': sorted(p for p in CHECKS if CHECKS[p].get('engine', 'bpa') == 'bpa'),
              'kind_free_text': 'abstract interpreter over LLVM-14 IR with a per-bit provenance domain (bits.py); '
                                'IR built from /repo by clang-14 on every run'},
+            {'name': 'rules', 'path': 'verif/rules.py', 'serves_properties': sorted(p for p in CHECKS if CHECKS[p].get('engine') == 'rules'),
+             'kind_free_text': 'structural dataflow rules (pointer provenance, alignment, effects, taint) over clang -O0 IR'},
+            {'name': 'witness', 'path': 'verif/checks/c20.py', 'serves_properties': sorted(p for p in CHECKS if CHECKS[p].get('engine') == 'witness'),
+             'kind_free_text': 'generated translation units whose (non-)compilation with static assertions is the verdict'},
         ],
         'checks': checks,
         'not_applicable': na,
